@@ -153,7 +153,13 @@ impl<'t, 'i> BlockParser<'t, 'i> {
                 }
                 T![escaped] => {
                     t.append_str(&self.input[start..end], start);
-                    debug_assert_eq!(token.len(), 2, "unexpected escaped token length");
+                    // "\" followed by any char (which may be multibyte) or nothing at the
+                    // end of the input
+                    debug_assert!(
+                        self.input[token.span.range()].starts_with('\\')
+                            && self.input[token.span.range()].chars().count() <= 2,
+                        "unexpected escaped token"
+                    );
                     start = token.span.start() + 1; // skip "\"
                     end = token.span.end()
                 }
